@@ -194,6 +194,7 @@ def run(tier, seed, only=None):
         run_obligations(rep, "CreateRHS + Disp[%s]" % cn, obs, timeout, family=lambda ob: "FEM: " + ob.meta["family"])
     # ---------------- cantilever closed form (ny = 2, beam along -y from the clamped root at the origin)
     cantilever(rep, timeout)
+    states_group(rep, tier, timeout)
     rep.bounds = {"cases": [c[0] for c in cfg]}
     rep.assumptions = ["real arithmetic", "sparse LU accuracy not modelled (the equation being solved is what is compared)",
                        "loads above the 1e-6 N zeroing threshold", "elements not parallel to the x axis (|e1 x xhat| != 0)"]
@@ -245,3 +246,105 @@ def replay_file(path):
     print("recorded counterexample: %s" % spec.get("what"))
     print("VIOLATION property=%s replay=%s" % (PID, path))
     return 1
+
+
+def states_group(rep, tier, timeout):
+    """The real SpatialBeamStates group with every load option switched on, executed through its own connections: the
+    right-hand side of the equation the FEM solves is the prescribed loads plus *all* enabled load sources of the same
+    group, followed by six zeros, and the reported disp is the solution's first 6 ny entries."""
+    import warnings
+
+    import openmdao.api as om
+    from openaerostruct.structures.spatial_beam_states import SpatialBeamStates
+    from symoas import pipe
+
+    combos = [("weight relief + point masses", dict(struct_weight_relief=True, n_point_masses=1), "tube"),
+              ("fuel + weight relief + point masses (wingbox)", dict(struct_weight_relief=True, distributed_fuel_weight=True, n_point_masses=1), "wingbox")]
+    if tier == "thorough":
+        combos += [("point masses only", dict(n_point_masses=2), "tube"), ("fuel + point masses (wingbox)", dict(distributed_fuel_weight=True, n_point_masses=1), "wingbox")]
+    for lab, over, kind in combos:
+        ny = 3
+        s = K.surface(2, ny, True, fem_model_type="wingbox", **over) if kind == "wingbox" else K.surface(2, ny, True, **over)
+        prob = om.Problem(reports=False)
+        prob.model.add_subsystem("states", SpatialBeamStates(surface=s), promotes=["*"])
+        with warnings.catch_warnings():
+            warnings.simplefilter("ignore")
+            prob.setup()
+            prob.final_setup()
+
+        def big_loads(ins):
+            return [bor(gt(x, 1e-6), lt(x, -1e-6)) for x in ins["total_loads"].ravel()]
+
+        GP = pipe.GroupPipe(prob, assume_for={"CreateRHS": big_loads}, abstract=("total_loads.total_loads",))
+        n = 6 * ny
+        u = symarray("disp_aug", (n + 6,))
+        GP.run(states={"fem.disp_aug": u, "disp_aug": u})
+        GP.encode(rep)
+        g = lambda nm: [v for k, v in GP.vals.items() if k.endswith("." + nm) or k == nm][0]
+        loads = [v for k, v in GP.vals.items() if k.startswith("_auto_ivc") and any(a.endswith("total_loads.loads") for a, src in GP.conn.items() if src == k)][0]
+        tot = np.array(loads, dtype=object).reshape(ny, 6)
+        srcs = ["struct_weight_loads"] * bool(over.get("struct_weight_relief")) + ["fuel_weight_loads"] * bool(over.get("distributed_fuel_weight")) + \
+               (["loads_from_point_masses", "loads_from_thrusts"] if "n_point_masses" in over else [])
+        for nm in srcs:
+            tot = tot + np.asarray(g(nm), dtype=object).reshape(ny, 6)
+        tl_sym = g("total_loads")  # what CreateRHS sees: fresh symbols standing for the value computed by TotalLoads
+        tl_val = [v for k, v in GP.abstracted.items() if k.endswith("total_loads.total_loads")][0]
+        obs = idents("total_loads", tl_val, tot, meta={"family": "loads applied to the beam are the prescribed loads plus every enabled load source of the group (%s)" % lab, "kind": "tot"})
+        obs += idents("forces", g("forces"), list(np.asarray(tl_sym, dtype=object).ravel()) + [ZERO] * 6, assume=GP.assumed,
+                      meta={"family": "FEM right-hand side is those loads followed by six zero constraint entries (%s)" % lab, "kind": "rhs"})
+        obs += idents("disp", g("disp"), np.array(list(u[:n]), dtype=object).reshape(ny, 6), meta={"family": "disp = first 6 ny entries of the augmented solution", "kind": "disp"})
+
+        def rp(ob, env, s=s, over=over, ny=ny):
+            return replay_states(s, over, ny)
+
+        run_obligations(rep, "real SpatialBeamStates: %s" % lab, obs, timeout, replay=rp, family=lambda ob: "SpatialBeamStates: " + ob.meta["family"])
+
+
+def replay_states(s, over, ny):
+    """the real group on floats: K u against the sum of the load sources it reports itself"""
+    import warnings
+
+    import openmdao.api as om
+    from openaerostruct.structures.spatial_beam_states import SpatialBeamStates
+
+    prob = om.Problem(reports=False)
+    prob.model.add_subsystem("states", SpatialBeamStates(surface=s), promotes=["*"])
+    with warnings.catch_warnings():
+        warnings.simplefilter("ignore")
+        prob.setup()
+    rng = np.random.default_rng(3)
+    nodes = np.stack([0.2 * np.arange(ny)[::-1], -1.5 * np.arange(ny)[::-1], 0.05 * np.arange(ny)], axis=1).astype(float)
+    prob.set_val("nodes", nodes)
+    prob.set_val("loads", 1e3 * (1.0 + rng.random((ny, 6))))
+    ch = Chain(s)
+    Kn = ch.real_K(nodes, *(1e-3 * (1 + rng.random(ny - 1)), 1e-6 * (1 + rng.random(ny - 1)), 2e-6 * (1 + rng.random(ny - 1)), 3e-6 * (1 + rng.random(ny - 1))))
+    import openaerostruct.structures.assemble_k_group as akg
+    p2 = om.Problem(reports=False)
+    p2.model.add_subsystem("k", akg.AssembleKGroup(surface=s), promotes=["*"])
+    p2.setup()
+    p2.set_val("nodes", nodes)
+    for nm, v in (("A", 1e-3), ("Iy", 1e-6), ("Iz", 2e-6), ("J", 3e-6)):
+        p2.set_val(nm, v * np.ones(ny - 1))
+    p2.run_model()
+    prob.set_val("local_stiff_transformed", p2.get_val("local_stiff_transformed"))
+    for nm, v in (("element_mass", 50.0 * (1 + rng.random(ny - 1))), ("load_factor", 2.5), ("fuel_vols", 0.1 * (1 + rng.random(ny - 1))), ("fuel_mass", 900.0),
+                  ("point_masses", 400.0 * np.ones(over.get("n_point_masses", 1))), ("engine_thrusts", 3000.0 * np.ones(over.get("n_point_masses", 1))),
+                  ("point_mass_locations", np.tile(np.array([0.1, -1.2, -0.2]), (over.get("n_point_masses", 1), 1)))):
+        try:
+            prob.set_val(nm, v)
+        except Exception:
+            pass
+    with warnings.catch_warnings():
+        warnings.simplefilter("ignore")
+        prob.run_model()
+    tot = np.array(prob.get_val("loads"), dtype=float)
+    for nm in ("struct_weight_loads", "fuel_weight_loads", "loads_from_point_masses", "loads_from_thrusts"):
+        try:
+            tot = tot + np.array(prob.get_val(nm), dtype=float)
+        except Exception:
+            pass
+    Kfull = np.asarray(prob.model.states.fem.assemble_CSC_K({"local_stiff_transformed": np.array(prob.get_val("local_stiff_transformed"))}).toarray())
+    ua = np.array(prob.get_val("disp_aug"), dtype=float)
+    res = Kfull.dot(ua)[: 6 * ny] - tot.ravel()
+    err = float(np.abs(res).max() / np.abs(tot).max())
+    return err > 1e-7, "real SpatialBeamStates: |K u - (loads + all enabled load sources)| / |loads| = %.3g" % err
